@@ -455,6 +455,10 @@ func adversarial(c *ctx, tier string) {
 	ladder["grp_moven_long"] = []int{60, 90}
 	for k := range rkKinds {
 		ladder["rk_"+k] = []int{255, 256, 257}
+		if strings.Contains(k, "_") && k != "self_stmt" && k != "arith_r" && k != "arith_l" && k != "cmp_r" && k != "cmp_l" && k != "cmp_if" {
+			// the wave-5 kinds (temporaries): only the register form is new
+			ladder["rk_"+k] = []int{256, 257}
+		}
 		if tier == "thorough" {
 			ladder["rk_"+k] = []int{253, 254, 255, 256, 257, 258, 511, 512, 513}
 		}
